@@ -149,3 +149,4 @@ REG.contract(
 # analysis.constraint_currents / current_unbalance / datetimes_array: not under contract (the name-keyed dictionary built from two selections did not
 # discharge within budget); the selection and ordering itself is proved on ChargingNetwork.constraint_current (C06 / C12), the rest is monitored.
 
+
